@@ -162,6 +162,22 @@ theorem prune_guard_needs_marker :
   refine ⟨⟨_, rfl, rfl⟩, ?_⟩
   decide
 
+/-- F-C04-c (known finding): the hypothesis `n ∉ ps` of `prune_guard_preserves`
+is not guaranteed by the code.  Same image as above, marker at the tip this
+time; connecting block 4 while its own block file is pruned (forced flush
+included) leaves an image that cannot be reopened: the tip's block is gone. -/
+theorem prune_of_connected_block_fails :
+    let b : Nat → Blk := fun i => ⟨i, [], false⟩
+    let c3 : Chain := [b 3, b 2, b 1]
+    let img : Image FreeAlg :=
+      { created := true, stored := [b 4 :: c3, c3, [b 2, b 1], [b 1], []],
+        rows := [([], genesisStatus), ([b 1], {valid := true}), ([b 2, b 1], {valid := true}),
+                 (c3, {valid := true}), (b 4 :: c3, {valid := true})],
+        best := c3, journal := [], utxo := c3, marker := some c3, fileMax := 0, files := [] }
+    recoverErr (recover ⟨false, none⟩
+      (apply img (.connectPrune (b 4 :: c3) [b 4 :: c3, [b 1]] (some (b 4 :: c3))))) = some .tipNotStored := by
+  decide
+
 /-- The hypotheses are satisfiable: the free algebra (state = list of connected
 blocks) is lawful, a fresh node exists and is `Good`. -/
 example : FreeAlg.Lawful := fun _ _ => rfl
